@@ -10,11 +10,11 @@ Naming: a theorem with a hypothesis the full statement needs is `…_partial`. T
 * `NoCancel` — no detector cancels the scan's context while another detector is still to run (then the
   remaining detectors are skipped by design and the scan fails; `C20_once_prefix` and C10's
   `Scalibr.Phases` cover that case). Without it the statements are false, by design of the code.
-* "the extractors' inventories carry no findings" (`i.fsFindings = [] ∧ i.stFindings = []`) for the scan-level
-  failure statements. The property's sentence speaks of FINDINGS, and read over all findings a scan
-  collects it is REFUTED for the code as it is: `Scan` validates only what `detector.Run` returns
-  (`C20_extractor_findings_unvalidated`, `C20_extractor_finding_without_advisory`: decided counterexamples,
-  known finding C20/extractor-findings-unvalidated). No built-in extractor emits findings.
+The property's sentence about inconsistent FINDINGS is read over all findings a scan collects — those carried by
+the extractors' inventories included (`ConsistentAll`). Since fix 89f87523 `Scan` validates them together with the
+detectors' (`detector.ValidateAdvisories(sro.Inventory.Findings)`), so the scan-level statements hold at full
+strength: `C20_scan_status_partial` (needs only `NoCancel`), `C20_emitted_consistent` and `C20_no_sort_panic`
+(no hypothesis at all).
 -/
 import Scalibr.Proofs.Detector
 import Scalibr.Proofs.Index
@@ -148,18 +148,52 @@ theorem C20_index_partial (i : ScanIn) (hn : NoCancel i.dets) :
     (getAll (Index.new (i.fsPkgs ++ i.stPkgs))).Perm (specAll (i.fsPkgs ++ i.stPkgs)) :=
   ⟨C20_once_partial _ _ hn, fun n t => new_getSpecific _ n t, fun t => new_getAllOfType _ t, new_getAll _⟩
 
-/-- Scan level, consistent findings (of the detectors; extractor findings pass through unvalidated, see the header): the scan succeeds and reports (as a sorted
-permutation) the extractors' findings plus every detector finding tagged with its detector. -/
-theorem C20_tagged_scan_partial (i : ScanIn) (hn : NoCancel i.dets)
-    (hc : Consistent (specFindings i.dets (Index.new (i.fsPkgs ++ i.stPkgs)))) :
-    (scanTail i).failed = false ∧
-    ((scanTail i).findings.map some).Perm
-      ((i.fsFindings ++ i.stFindings).map some ++ specFindings i.dets (Index.new (i.fsPkgs ++ i.stPkgs))) := by
-  obtain ⟨hf, he⟩ := C20_tagged_partial i.dets _ hn hc
-  unfold scanTail
-  simp only [he]
-  refine ⟨rfl, ?_⟩
-  rw [← hf, ← List.map_append]
+/-- what `Scan` validates is the specification's list of all findings (extractor-emitted ++ tagged detector findings) whenever
+`detector.Run` itself succeeded -/
+theorem scan_validates_all (i : ScanIn) (hn : NoCancel i.dets)
+    (hr : (run i.dets (Index.new (i.fsPkgs ++ i.stPkgs))).err = none) :
+    (i.fsFindings ++ i.stFindings ++ (run i.dets (Index.new (i.fsPkgs ++ i.stPkgs))).findings).map some = allFindings i := by
+  have hc := (C20_error_iff_partial i.dets _ hn).1 hr
+  unfold allFindings
+  rw [List.map_append, (C20_tagged_partial i.dets _ hn hc).1]
+
+/-- STATUS, full strength over ALL findings (`_partial` only for `NoCancel`): the scan reports failure exactly when
+the findings it collected — the extractors' and the detectors' together — are inconsistent: two of them share an
+advisory ID and differ in content, or one lacks an advisory or an advisory ID (or is nil). A failing detector
+alone does not fail the scan. -/
+theorem C20_scan_status_partial (i : ScanIn) (hn : NoCancel i.dets) :
+    (scanTail i).failed = false ↔ ConsistentAll i := by
+  unfold scanTail scanFindings ConsistentAll
+  simp only []
+  cases hr : (run i.dets (Index.new (i.fsPkgs ++ i.stPkgs))).err with
+  | none =>
+    rw [← scan_validates_all i hn hr, ← validate_spec]
+    cases hv : validate ((i.fsFindings ++ i.stFindings ++ (run i.dets (Index.new (i.fsPkgs ++ i.stPkgs))).findings).map some) [] <;>
+      simp [hv, hr]
+  | some e =>
+    have hnc : ¬ Consistent (specFindings i.dets (Index.new (i.fsPkgs ++ i.stPkgs))) := by
+      intro hc; rw [(C20_error_iff_partial i.dets _ hn).2 hc] at hr; cases hr
+    have hna : ¬ Consistent (allFindings i) := fun h => hnc (consistent_append_right _ _ h)
+    constructor
+    · intro h
+      exfalso
+      revert h
+      split <;> simp [hr]
+    · intro h; exact absurd h hna
+
+/-- TAGGED, scan level: consistent findings ⇒ the scan succeeds and reports (as a sorted permutation) exactly all of
+them — the extractors' as they are, every detector finding tagged with its detector. -/
+theorem C20_tagged_scan_partial (i : ScanIn) (hn : NoCancel i.dets) (hc : ConsistentAll i) :
+    (scanTail i).failed = false ∧ ((scanTail i).findings.map some).Perm (allFindings i) := by
+  refine ⟨(C20_scan_status_partial i hn).2 hc, ?_⟩
+  have hcs : Consistent (specFindings i.dets (Index.new (i.fsPkgs ++ i.stPkgs))) := consistent_append_right _ _ hc
+  have hr := (C20_error_iff_partial i.dets _ hn).2 hcs
+  have hall := scan_validates_all i hn hr
+  have hv : validate ((i.fsFindings ++ i.stFindings ++ (run i.dets (Index.new (i.fsPkgs ++ i.stPkgs))).findings).map some) [] = none := by
+    rw [hall]; exact (validate_spec _).2 hc
+  unfold scanTail scanFindings
+  simp only [hv]
+  rw [← hall]
   exact (isort_perm _ _).map some
 
 /-- Scan level, statuses: the plugin statuses are (a sorted permutation of) the extractors' statuses
@@ -171,69 +205,68 @@ theorem C20_status_scan_partial (i : ScanIn) (hn : NoCancel i.dets) :
   simp only [C20_status_partial i.dets _ hn]
   exact isort_perm _ _
 
-/-- Scan level, inconsistent findings (nil entries included): the scan reports failure and emits NO
-detector finding. -/
-theorem C20_inconsistent_scan_partial (i : ScanIn) (hn : NoCancel i.dets)
-    (hc : ¬ Consistent (specFindings i.dets (Index.new (i.fsPkgs ++ i.stPkgs)))) :
-    (scanTail i).failed = true ∧ (scanTail i).findings.Perm (i.fsFindings ++ i.stFindings) := by
-  obtain ⟨he, hf, _⟩ := C20_inconsistent_partial i.dets _ hn hc
-  unfold scanTail
-  simp only [hf, List.append_nil]
-  refine ⟨?_, isort_perm _ _⟩
-  cases h : (run i.dets (Index.new (i.fsPkgs ++ i.stPkgs))).err with
-  | none => exact absurd h he
-  | some e => rfl
-
-/-- The scan status is "failed" exactly when the findings — ALL of them, `ConsistentAll` — are inconsistent,
-PROVIDED the extractors' inventories carry none (then all findings are the detectors'); a failing
-detector alone does not fail the scan. -/
-theorem C20_scan_status_partial (i : ScanIn) (hn : NoCancel i.dets) (hx : i.fsFindings = [] ∧ i.stFindings = []) :
-    (scanTail i).failed = false ↔ ConsistentAll i := by
-  have hall : allFindings i = specFindings i.dets (Index.new (i.fsPkgs ++ i.stPkgs)) := by
-    simp [allFindings, hx.1, hx.2]
-  unfold ConsistentAll
-  rw [hall, ← C20_error_iff_partial i.dets _ hn]
+/-- NEVER INCONSISTENT — for every scan, with or without cancellation, whatever extractors and detectors return: the
+findings a scan emits are consistent (every one has an advisory with an ID, equal IDs carry identical advisories).
+"The scan reports failure INSTEAD OF emitting inconsistent findings." -/
+theorem C20_emitted_consistent (i : ScanIn) : Consistent ((scanTail i).findings.map some) := by
+  have h := scanFindings_consistent i
   unfold scanTail
   simp only []
-  cases (run i.dets (Index.new (i.fsPkgs ++ i.stPkgs))).err <;> simp
+  exact consistent_perm _ _ ((isort_perm findingLt (scanFindings i).1).symm.map some) h
 
-/-- FULL STRENGTH REFUTED (1): an extractor's finding and a detector's finding share an advisory ID and differ
-in content — the scan does NOT fail and emits both. -/
+/-- INCONSISTENT, scan level, over ALL findings: the scan reports failure and emits no detector finding; what it
+still emits is nothing at all, or — when the detectors' findings were the inconsistent ones and `detector.Run`
+already discarded them — the extractors' findings, consistent among themselves (`C20_emitted_consistent`). -/
+theorem C20_inconsistent_scan_partial (i : ScanIn) (hn : NoCancel i.dets) (hc : ¬ ConsistentAll i) :
+    (scanTail i).failed = true ∧
+    ((scanTail i).findings = [] ∨ (scanTail i).findings.Perm (i.fsFindings ++ i.stFindings)) := by
+  have hf : (scanTail i).failed = true := by
+    cases h : (scanTail i).failed with
+    | true => rfl
+    | false => exact absurd ((C20_scan_status_partial i hn).1 h) hc
+  refine ⟨hf, ?_⟩
+  unfold scanTail scanFindings
+  simp only []
+  cases hv : validate ((i.fsFindings ++ i.stFindings ++ (run i.dets (Index.new (i.fsPkgs ++ i.stPkgs))).findings).map some) [] with
+  | some e => left; simp [isort]
+  | none =>
+    right
+    cases hr : (run i.dets (Index.new (i.fsPkgs ++ i.stPkgs))).err with
+    | none =>
+      exfalso
+      apply hc
+      unfold ConsistentAll
+      rw [← scan_validates_all i hn hr]
+      exact (validate_spec _).1 hv
+    | some e =>
+      simp only [run_err_findings _ _ e hr, List.append_nil]
+      exact isort_perm _ _
+
+/-- the two inputs of the repaired defect (known finding C20/extractor-findings-unvalidated until fix 89f87523): an
+extractor's finding and a detector's share an advisory ID and differ in content; an extractor's finding lacks an
+advisory (alone, and next to another one, where `sortResults` used to panic) — failure, no findings, no panic -/
 def exfI : ScanIn :=
   ⟨[], [⟨1, some ⟨some (0, [7]), 0⟩, 1, [], []⟩], [], [], [], [],
    [⟨"d", fun _ => ([some ⟨2, some ⟨some (0, [7]), 1⟩, 2, [], []⟩], false), false⟩]⟩
-theorem C20_extractor_findings_unvalidated :
-    consistentB (allFindings exfI) = false ∧ (scanTail exfI).failed = false ∧ (scanTail exfI).findings.length = 2 := by
-  refine ⟨by decide, by decide, by decide⟩
-
-/-- FULL STRENGTH REFUTED (2): an extractor's finding lacks an advisory — emitted without failure; with a
-second finding next to it `sortResults` dereferences the nil advisory and the whole scan PANICS. -/
 def exfJ (n : Nat) : ScanIn :=
   ⟨[], (List.range n).map fun k => ⟨k, none, k, [], []⟩, [], [], [], [], []⟩
-theorem C20_extractor_finding_without_advisory :
-    consistentB (allFindings (exfJ 1)) = false ∧ (scanTail (exfJ 1)).failed = false ∧ (scanTail (exfJ 1)).findings.length = 1 ∧
-    (scanTail (exfJ 1)).panics = false ∧ (scanTail (exfJ 2)).panics = true := by
-  refine ⟨by decide, by decide, by decide, by decide, by decide⟩
+theorem C20_extractor_findings_validated :
+    (scanTail exfI).failed = true ∧ (scanTail exfI).findings = [] ∧
+    (scanTail (exfJ 1)).failed = true ∧ (scanTail (exfJ 1)).findings = [] ∧
+    (scanTail (exfJ 2)).failed = true ∧ (scanTail (exfJ 2)).findings = [] ∧ (scanTail (exfJ 2)).panics = false := by
+  refine ⟨by decide, by decide, by decide, by decide, by decide, by decide, by decide⟩
 
-/-- With validated findings only (no extractor findings), `sortResults` never dereferences a nil advisory. -/
-theorem C20_no_sort_panic_partial (i : ScanIn) (hn : NoCancel i.dets)
-    (hx : i.fsFindings = [] ∧ i.stFindings = []) : (scanTail i).panics = false := by
+/-- UNREACHABLE: `sortResults` never sees a finding without advisory or advisory ID — for EVERY scan (no hypothesis):
+what reaches it passed `ValidateAdvisories` or is empty. The `panics` outcome of the model cannot occur. -/
+theorem C20_no_sort_panic (i : ScanIn) : (scanTail i).panics = false := by
+  have hk := consistent_keyed _ (scanFindings_consistent i)
   unfold scanTail
-  simp only [hx.1, hx.2, List.nil_append]
-  by_cases hc : Consistent (specFindings i.dets (Index.new (i.fsPkgs ++ i.stPkgs)))
-  · have hm := (C20_tagged_partial i.dets _ hn hc).1
-    have hall : ∀ f ∈ (run i.dets (Index.new (i.fsPkgs ++ i.stPkgs))).findings, (sortKey f).isNone = false := by
-      intro f hf
-      have : some f ∈ specFindings i.dets (Index.new (i.fsPkgs ++ i.stPkgs)) := by
-        rw [← hm]; exact List.mem_map.2 ⟨f, hf, rfl⟩
-      obtain ⟨g, a, k, hg, ha, hk⟩ := hc.1 (some f) this
-      cases hg
-      simp [sortKey, ha, hk]
-    have : ((run i.dets (Index.new (i.fsPkgs ++ i.stPkgs))).findings.any fun f => (sortKey f).isNone) = false := by
-      rw [List.any_eq_false]; intro f hf; simp [hall f hf]
-    simp [this]
-  · have := (C20_inconsistent_partial i.dets _ hn hc).2.1
-    simp [this]
+  simp only []
+  have : ((scanFindings i).1.any fun f => (sortKey f).isNone) = false := by
+    rw [List.any_eq_false]; intro f hf
+    have := hk f hf
+    cases h : sortKey f <;> simp_all
+  simp [this]
 
 /-! ### non-vacuity -/
 
@@ -260,7 +293,5 @@ example : consistentB [some ⟨1, some ⟨some (1, [5]), 3⟩, 0, [], []⟩, som
 example : (run [⟨"d", fun _ => ([some sharedF, none], false), false⟩] []).err = some .nilFinding ∧
     (run [⟨"d", fun _ => ([some sharedF, none], false), false⟩] []).findings = [] := by
   refine ⟨by decide, by decide⟩
-/-- the hypothesis of `C20_no_sort_panic_partial` matters: two extractor findings, one without advisory -/
-example : (scanTail ⟨[], [⟨1, none, 0, [], []⟩, ⟨2, some exA, 0, [], []⟩], [], [], [], [], []⟩).panics = true := by decide
 
 end Scalibr.Detector
